@@ -1,6 +1,11 @@
 (* line driver for the C16 model (extracted from FiltersDefs.v / RegexDefs.v / SrcFilters.v).
    A scenario is one line of space-separated tokens:
      o:D | o:N | o:V<t> | o:R<ast>~<pcre hex> | o:FC | o:FT | o:X<bit>     handler objects, numbered 0..
+     o:d | o:n | o:v<t> | o:r<ast>~<pcre hex>                               the same kinds, obtained by the harness through the
+                                                                            fluent API (SimplePipeline::filterDuplicate() /
+                                                                            addSeqNumber / filterLevel / filter(regexp)); the
+                                                                            rules do not depend on how the object was made, so
+                                                                            the model reads them as D / N / V / R
      p:<i>,<i>,...                                                          pipelines (object numbers)
      m:<pipeline>:<type>:<flags>:<text>[:<thread>]                          messages; text = hex UTF-16
                                                                             units (4 digits each), '-' = null QString;
@@ -59,7 +64,7 @@ let parse_scenario (line : string) : scenario =
   List.iter (fun tok -> if String.length tok >= 2 then begin
     let body = String.sub tok 2 (String.length tok - 2) in
     match tok.[0] with
-    | 'o' -> let h = (match body.[0] with
+    | 'o' -> let h = (match Char.uppercase_ascii body.[0] with
         | 'D' -> HDup | 'N' -> HSeq
         | 'V' -> HLevel (mt_of (int_of_string (String.sub body 1 (String.length body - 1))))
         | 'R' -> let ast = String.sub body 1 (String.index body '~' - 1) in HRegex (parse_re ast)
